@@ -1356,6 +1356,17 @@ func unmarshalTimestamp(info TypeInfo, data []byte, value interface{}) error {
 
 const millisecondsInADay int64 = 24 * 60 * 60 * 1000
 
+// encDate encodes the day that contains the given instant (milliseconds since
+// the Unix epoch): days are counted from 2^31 = 1970-01-01, rounding towards
+// negative infinity so that instants before the epoch land on their own day.
+func encDate(timestamp int64) []byte {
+	days := timestamp / millisecondsInADay
+	if timestamp%millisecondsInADay < 0 {
+		days--
+	}
+	return encInt(int32(days + int64(1<<31)))
+}
+
 func marshalDate(info TypeInfo, value interface{}) ([]byte, error) {
 	var timestamp int64
 	switch v := value.(type) {
@@ -1365,22 +1376,19 @@ func marshalDate(info TypeInfo, value interface{}) ([]byte, error) {
 		return nil, nil
 	case int64:
 		timestamp = v
-		x := timestamp/millisecondsInADay + int64(1<<31)
-		return encInt(int32(x)), nil
+		return encDate(timestamp), nil
 	case time.Time:
 		if v.IsZero() {
 			return []byte{}, nil
 		}
 		timestamp = int64(v.UTC().Unix()*1e3) + int64(v.UTC().Nanosecond()/1e6)
-		x := timestamp/millisecondsInADay + int64(1<<31)
-		return encInt(int32(x)), nil
+		return encDate(timestamp), nil
 	case *time.Time:
 		if v.IsZero() {
 			return []byte{}, nil
 		}
 		timestamp = int64(v.UTC().Unix()*1e3) + int64(v.UTC().Nanosecond()/1e6)
-		x := timestamp/millisecondsInADay + int64(1<<31)
-		return encInt(int32(x)), nil
+		return encDate(timestamp), nil
 	case string:
 		if v == "" {
 			return []byte{}, nil
@@ -1390,8 +1398,7 @@ func marshalDate(info TypeInfo, value interface{}) ([]byte, error) {
 			return nil, marshalErrorf("can not marshal %T into %s, date layout must be '2006-01-02'", value, info)
 		}
 		timestamp = int64(t.UTC().Unix()*1e3) + int64(t.UTC().Nanosecond()/1e6)
-		x := timestamp/millisecondsInADay + int64(1<<31)
-		return encInt(int32(x)), nil
+		return encDate(timestamp), nil
 	}
 
 	if value == nil {
